@@ -324,6 +324,24 @@ fn main() {
         }
         t
     });
+    // R2b structured operands (word limits, word-crossing products, patterns at every length, carry chains)
+    let st = structured_ints(tier.pick(80, 300), tier.pick(24, 60), run.seed());
+    run.bound("R2b_structured_integers", st.len());
+    run.par("R2b structured operands", st.len(), |i| {
+        let mut t = Tally::default();
+        let l = ndigits(&st[i]) as i128;
+        for x in structured_decimals(&st[i..=i], &[0, 1, -1, l, l + 3, 16, -16], &[0, 1, 12]) {
+            t.states += 1;
+            for r in ROUTES {
+                t.transitions += 1;
+                t.nontrivial += 1;
+                if let Some(v) = check_round_trip(r, &x) {
+                    run.report(v);
+                }
+            }
+        }
+        t
+    });
     // Option: None <-> null
     run.seq("R3 Option None / null", || {
         let mut t = Tally::default();
